@@ -1,6 +1,8 @@
 package main
 
 import (
+	"fmt"
+
 	"verif/common"
 	"verif/space"
 
@@ -34,6 +36,7 @@ type genInst struct {
 	b     *box
 	model []int
 	cap   int
+	start string
 }
 
 // start i: container filled with startSlices[i] in that (arbitrary) order, then heapz.Init.
@@ -43,6 +46,7 @@ func newGenInst(k cmpKind, idx, capN int) *genInst {
 	x.b = &box{a: append(make([]int, 0, len(src)), src...), less: x.cmp}
 	x.model = append([]int(nil), src...)
 	heapz.Init[int](x.b)
+	x.start = fmt.Sprintf("container %v, Init, %s", src, k)
 	return x
 }
 
@@ -77,7 +81,10 @@ func asInt(fn string, v any) (int, *space.Mismatch) {
 	return i, nil
 }
 
-func (x *genInst) Apply(op space.Op) *space.Mismatch {
+func (x *genInst) Apply(op space.Op) *space.Mismatch { return tag(x.start, x.apply(op)) }
+func (x *genInst) Check() *space.Mismatch            { return tag(x.start, x.check()) }
+
+func (x *genInst) apply(op space.Op) *space.Mismatch {
 	switch op.Name {
 	case "Push":
 		heapz.Push[int](x.b, op.Args[0])
@@ -137,7 +144,7 @@ func (x *genInst) Apply(op space.Op) *space.Mismatch {
 func (x *genInst) Roots() []any     { return []any{x.k.String(), x.b.a} }
 func (x *genInst) Abstract() string { return abstractOf(x.k, x.model) }
 
-func (x *genInst) Check() *space.Mismatch {
+func (x *genInst) check() *space.Mismatch {
 	if g := x.b.Len(); g != len(x.model) {
 		return mm("heapz|element-lost-or-duplicated", "container holds %d elements, model %v", g, sorted(x.model))
 	}
